@@ -167,13 +167,17 @@ func VerifC20Concurrent(pair int) {
 		verifrt.Go(func() { g = p.Get("x") })
 		verifrt.Go(func() { kept = p.Put("x", b) })
 		verifrt.WaitAll()
-		verifrt.Assert(g == nil, "a stale connection is never handed out (a Put that came first found max_idle connections parked and declined)")
-		verifrt.Assert(a.closed && a2.closed, "the stale connections a Get discarded are closed")
-		idle, _ := p.Stats("x")
-		verifrt.Assert(kept != b.closed, "Put either keeps the connection idle or closes it")
-		if kept {
-			verifrt.Assert(idle == 1, "the fresh connection returned meanwhile is parked, open and counted")
-			verifrt.Assert(p.Get("x") == net.Conn(b) && !b.closed, "the parked connection is handed out, still open")
+		// (at the pinned commit a Put that comes first finds max_idle connections parked and declines; a pool
+		// that evicts the stale ones instead and hands the fresh connection to the Get is just as good)
+		verifrt.Assert(g == nil || (g == net.Conn(b) && !b.closed), "a stale connection is never handed out, and a connection that is handed out is open")
+		if g == nil {
+			verifrt.Assert(a.closed && a2.closed, "the stale connections a Get discarded are closed")
+			idle, _ := p.Stats("x")
+			verifrt.Assert(kept != b.closed, "Put either keeps the connection idle or closes it")
+			if kept {
+				verifrt.Assert(idle == 1, "the fresh connection returned meanwhile is parked, open and counted")
+				verifrt.Assert(p.Get("x") == net.Conn(b) && !b.closed, "the parked connection is handed out, still open")
+			}
 		}
 		p.Shutdown()
 		verifrt.Assert(a.closed && a2.closed, "Shutdown closes everything the pool still holds")
